@@ -19,9 +19,9 @@ func init() {
 			Title: "A stalled peer cannot block service to other peers",
 			Explanation: "Decides that shared event-loop goroutines never reach an operation that waits on one peer: (R1) every response transaction issued from code reachable from a manager's run loop uses only builder methods whose appended operations all have a constant-zero size(), " +
 				"so the per-peer memory reservation behind it cannot block (size domain Zero | MaybePositive, derived from each responseOperation's size()); messages the requestor's loop sends reserve a literal 0; " +
-				"(R2) network operations (SendMsg, NewMessageSender, ConnectTo, stream Reset/Close, SendMessage) are not reachable from the managers' run loops. " +
+				"(R2) network operations (SendMsg, NewMessageSender, ConnectTo, stream Reset/Close, SendMessage) are not reachable from the managers' run loops; (R3) a zero-size build never goes through the allocator. " +
 				"Not decided: worker-pool exhaustion by one peer's blocked executors (quantitative); slow-peer effects inside libp2p.",
-			Assumptions: append([]string{"a reservation of size 0 never waits (MessageQueue.AllocateAndBuildMessage skips the allocator for size 0 — checked by C15.R1's guard shape)"}, commonTrust...),
+			Assumptions: append([]string{"the allocator may make even a zero-size request wait behind a peer's pending allocations (read from AllocateBlockMemory); R3 therefore requires the queue to skip the allocator for size 0"}, commonTrust...),
 			Technique:   "goroutine-root reachability with call-site binding of transaction literals; abstract size domain over responseOperation implementations",
 		},
 		Run: runC25,
@@ -252,6 +252,33 @@ func runC25(c *engine.Ctx) {
 			}
 		}
 	}
+	// R3: a zero-size build never touches the allocator (otherwise it queues behind the peer's waiting allocations)
+	r3 := c.Rule("R3", "a message built with size 0 never goes through the memory allocator", 1)
+	nAlloc := 0
+	for _, f := range c.P.FuncsIn("messagequeue") {
+		for _, ci := range engine.Calls(f) {
+			if !ci.Common.IsInvoke() || ci.Common.Method.Name() != "AllocateBlockMemory" {
+				continue
+			}
+			nAlloc++
+			size := engine.Strip(ci.Common.Args[1])
+			guard := false
+			for _, cd := range engine.InstrConds(ci.Instr) {
+				if b, ok := cd.V.(*ssa.BinOp); ok && engine.Strip(b.X) == size {
+					if k, ok := engine.ConstInt(b.Y); ok && k == 0 && ((b.Op == token.GTR && cd.Pol) || (b.Op == token.NEQ && cd.Pol) || (b.Op == token.EQL && !cd.Pol)) {
+						guard = true
+					}
+				}
+			}
+			c.Decide(r3, engine.FuncName(f)+"|AllocateBlockMemory", ci.Instr.Pos(), guard,
+				"the allocator is consulted only for size > 0",
+				"the allocator is consulted even for size 0: the allocator grants at once only when the peer has nothing waiting, so a zero-size message built on a manager loop for a stalled, full peer waits behind that peer's pending allocation and stalls the loop for every peer")
+		}
+	}
+	if nAlloc == 0 {
+		c.AnchorMissing(r3, "a call of Allocator.AllocateBlockMemory in messagequeue")
+	}
+
 	// R2 positive side: where the network operations do live
 	n := 0
 	for _, f := range c.P.SrcFuncs() {
